@@ -23,7 +23,7 @@ STD = {1: (1,), 6: (4,), 7: (3,), 8: (2,), 9: (1,), 16: (2, 6), 15: (3, 5), 17: 
 STRUCT_ELS = [1, 6, 7, 8, 9, 16, 15, 78, 5]  # incl. Pt, B for the structural part (elements the function supports)
 BOUNDS = {"quick": "structural: all element lists over {H,C,N,O,F,S,P,Pt,B} (non-decreasing index) x all adjacency matrices, <= 4 atoms, charge 0 and "
                    "allow_charged_fragments in {False, True} with charge in {-1,0,1}; chemical: all valence-correct connected molecules with <= 4 atoms over "
-                   "{H,C,N,O,F,S(II/VI),P(III/V),Cl}, bond orders <= 3, 6 atom orders each",
+                   "{H,C,N,O,F,S(II/VI),P(III/V),Cl}, bond orders <= 3, 6 atom orders each; every such molecule exported with generated bond orders under three identifier assignments and from subgraph(all atoms) in three other orders",
           "thorough": "structural <= 5 atoms (elements H,C,N,O,S,Pt); chemical <= 5 atoms, all atom orders"}
 OUTSIDE = "molecules with more than 5 atoms, hence benzene-size aromatic systems; Br, I (same valence pattern as Cl); hypervalent S(VI)/P(V) inside a three-membered ring and S(VI) carrying two triple bonds (recorded findings); elements without an entry in the valence-electron table (the function raises)"
 ASSUMPTIONS = ["standard valences as in the property statement: H1 C4 N3 O2 F1 Cl1 S2/6 P3/5"]
